@@ -44,6 +44,11 @@ Sensitivity (quick tier, seed 1, one textual mutation at a time on a scratch cop
     by a failing input; and behaviourally by the two/three-iterator histories: C36.wait.next_raised KeyError,
     C36.wait.done_false_after_last, C36.wait.yielded_foreign_input).  Earlier version: exit 2 (state leaking between
     cases made Hypothesis report the check as flaky); every case now starts by resetting the class-level table.
+  * seeded C36-9 (round 9): multi_future keeps the LIVE `children.keys()` view of a dict input -> caught at every seed by
+    the grid (C36.multi.outcome) since "the caller mutates the list/dict it passed, after the call and before completion"
+    (clear / refill / delete a key / add a key) became a history op for multi.  Judged inside the statement: multi's result
+    is keyed by the keys passed at the call.  WaitIterator (takes *args / **kwargs) and with_timeout (one future) have no
+    caller-owned container to mutate.  Earlier version: missed.
   * seeded C36-8 (round 8): WaitIterator copies a cancelled input inline instead of through chain_future
                                                                         -> caught at seed 1 (C36.pending.wait)
   * with_timeout: remove the deadline timer only when the input succeeded (DESIGN's third mutant)
@@ -214,6 +219,31 @@ async def _scn_multi(ctx, case, labels):
 
     await vtime.settle()
     check("after_call")
+    mut = case.get("mutate")
+    if mut:
+        # the caller goes on using ITS container after the call: multi's inputs (and a dict's keys) are those passed at
+        # call time ("a dict with the same keys"); what happens to the container afterwards must not matter
+        labels.add("container_mutated_after_call")
+        if mut == "clear":
+            arg.clear()
+        elif mut == "refill":
+            arg.clear()
+            if isinstance(arg, dict):
+                arg["zz"] = Future()
+            else:
+                arg.append(Future())
+        elif mut == "drop_first" and arg:
+            if isinstance(arg, dict):
+                del arg[next(iter(arg))]
+            else:
+                del arg[0]
+        elif mut == "add":
+            if isinstance(arg, dict):
+                arg["zz"] = Future()
+            else:
+                arg.append(Future())
+        await vtime.settle()
+        check("after_mutation")
     for i in order:
         if not pre[i]:
             inp.complete(i)
@@ -484,6 +514,12 @@ async def _scn_timeout(ctx, case, labels):
         arg = t0 + d
     res = [_guard(ctx, case, "with_timeout", gen.with_timeout, arg, f, quiet_exceptions=(InputError,)) for f in inp.futs]
     psig = _pending_sig("with_timeout", outs)
+    # the same input wrapped a second time with a far later deadline ("the wrapped Future is not canceled when the
+    # timeout expires, permitting it to be reused"): that one always ends with the input's own outcome
+    res_late = []
+    if case.get("twice"):
+        labels.add("input_wrapped_twice")
+        res_late = [_guard(ctx, case, "with_timeout", gen.with_timeout, t0 + m + 5.0, f, quiet_exceptions=(InputError,)) for f in inp.futs]
 
     def check(where):
         now = loop.time() - t0
@@ -522,6 +558,11 @@ async def _scn_timeout(ctx, case, labels):
         if got not in want:
             ctx.fail("C36.with_timeout.outcome", {"case": case, "input": i, "got": _j(got), "want_one_of": _j(want),
                                                    "t_done": tdone[i], "deadline": d})
+    for i, r in enumerate(res_late):
+        got = snorm(r)
+        if got != inp.expected(i):
+            ctx.fail("C36.with_timeout.second_wrapper_outcome", {"case": case, "input": i, "got": _j(got), "want": _j(inp.expected(i))},
+                     sig="C36.pending.with_timeout.second" if got == ("pending",) else None)
     inp.retrieve()
     for r in res:
         norm(r)
@@ -810,6 +851,10 @@ def grid_cases(nmax):
                 ident = list(range(n))
                 yield _base("multi", n, outs, order, slots=ident, form="list", quiet=False)
                 yield _base("multi", n, outs, order, slots=ident, form="dict", quiet=True)
+                if n:
+                    mut = ("clear", "refill", "drop_first", "add")[(len(order) + sum(order[:1])) % 4]
+                    yield _base("multi", n, outs, order, slots=ident, form="dict", quiet=True, mutate=mut)
+                    yield _base("multi", n, outs, order, slots=ident, form="list", quiet=True, mutate="refill")
                 yield _base("wait", n, outs, order, form="args", mode="next", eager=[True] * (n + 1))
                 yield _base("wait", n, outs, order, form="kwargs", mode="next", eager=[False] * (n + 1))
                 yield _base("wait", n, outs, order, form="args", mode="async_for", start_gap=0)
@@ -872,6 +917,7 @@ def case_s(draw):
         c["slots"] = draw(st.lists(st.integers(0, n - 1), min_size=0, max_size=4)) if n else []
         c["form"] = draw(st.sampled_from(["list", "dict"]))
         c["quiet"] = draw(st.booleans())
+        c["mutate"] = draw(st.sampled_from([None, None, "clear", "refill", "drop_first", "add"]))
     elif comb == "wait":
         c["form"] = draw(st.sampled_from(["args", "kwargs"]))
         c["mode"] = draw(st.sampled_from(["next", "next", "async_for"]))
@@ -896,6 +942,7 @@ def case_s(draw):
         m = sum(1 for p in pre if not p)
         c["dpos"] = draw(st.integers(0, 2 * m + 2))
         c["td"] = draw(st.booleans())
+        c["twice"] = draw(st.booleans())
     else:
         c["akind"] = draw(st.lists(kind, min_size=n, max_size=n))
         c["bkind"] = draw(st.lists(kind, min_size=n, max_size=n))
